@@ -307,6 +307,31 @@ fn interleave(ctx: &mut Ctx, env: &Env, rng: &mut Rng) {
     v.cleanup(env);
 }
 
+// ------------------------------------------------------------------ floating-point control word
+
+/// MXCSR as a new process has it (all exceptions masked, round to nearest, no flush-to-zero)
+const FP_DEFAULT: u32 = 0x1F80;
+
+#[cfg(all(target_arch = "x86_64", not(miri)))]
+fn fp_control_word() -> u32 {
+    let mut w: u32 = 0;
+    // SAFETY: stmxcsr stores the 32-bit MXCSR register to the given address
+    unsafe { std::arch::asm!("stmxcsr [{}]", in(reg) &mut w, options(nostack)) };
+    w & !0x3F // (without the sticky exception flags)
+}
+#[cfg(all(target_arch = "x86_64", not(miri)))]
+fn reset_fp_control_word() {
+    let w: u32 = FP_DEFAULT;
+    // SAFETY: ldmxcsr loads MXCSR from the given address; 0x1F80 is the power-on default
+    unsafe { std::arch::asm!("ldmxcsr [{}]", in(reg) &w, options(nostack, readonly)) };
+}
+#[cfg(not(all(target_arch = "x86_64", not(miri))))]
+fn fp_control_word() -> u32 {
+    FP_DEFAULT
+}
+#[cfg(not(all(target_arch = "x86_64", not(miri))))]
+fn reset_fp_control_word() {}
+
 // ------------------------------------------------------------------ setter histories
 
 fn setter_history(ctx: &mut Ctx, env: &Env, rng: &mut Rng) {
@@ -835,6 +860,10 @@ pub fn run(ctx: &mut Ctx) {
     // the thread's floating-point environment changed)
     let n = ctx.n(6, 60);
     ctx.run_cases("batch-between-steps", n, false, |ctx, rng, idx| {
+        // (the control word is put back to the default before anything is computed: the tiny
+        // gain itself is a subnormal number)
+        let default_before = fp_control_word();
+        reset_fp_control_word();
         let mut e = env.load_bundled();
         let v = if idx % 2 == 0 { -6350.0 } else { rng.uniform(-6380.0, -6200.0) };
         e.condition.set_volume(v);
@@ -854,7 +883,17 @@ pub fn run(ctx: &mut Ctx) {
             }
             Some(out)
         };
-        match (run(false), run(true)) {
+        // each variant starts from the floating-point control word a new process has (earlier
+        // cases of this shard have rendered on this thread, and new threads inherit the word)
+        let plain = run(false);
+        reset_fp_control_word();
+        let interrupted = run(true);
+        let after = fp_control_word();
+        reset_fp_control_word();
+        if default_before != FP_DEFAULT || after != FP_DEFAULT {
+            ctx.count("fp_control_word_found_changed", 1.0);
+        }
+        match (plain, interrupted) {
             (Some(a), Some(b)) => {
                 ctx.count("stepped_renderings_with_a_batch_in_between", 1.0);
                 if a.iter().any(|x| *x != 0.0 && x.abs() < f64::MIN_POSITIVE) {
